@@ -659,6 +659,17 @@ func RemoveAll(path string) error {
 }
 
 func Rename(oldpath, newpath string) error {
+	// like the real package on Unix: refuse to rename onto a directory
+	if fi, err := Lstat(newpath); err == nil && fi.IsDir() {
+		if ofi, err := Lstat(oldpath); err != nil {
+			if pe, ok := err.(*PathError); ok {
+				err = pe.Err
+			}
+			return &LinkError{"rename", oldpath, newpath, err}
+		} else if newpath == oldpath || !SameFile(fi, ofi) {
+			return &LinkError{"rename", oldpath, newpath, syscall.EEXIST}
+		}
+	}
 	if e := cur.Rename(oldpath, newpath); e != 0 {
 		return &LinkError{"rename", oldpath, newpath, e}
 	}
